@@ -74,13 +74,23 @@ func putExec(n int, x *qx.Exec) {
 	xpool[n] = append(xpool[n], x)
 }
 
-// barrier: every goroutine of a race announces itself, spins until the driver lets all go at once,
-// then burns its seeded skew.
-type barrier struct{ arrived, goFlag int32 }
+// barrier: every goroutine of a race takes a slot and spins, beating a counter of its own; the
+// driver lets all go at once, and only at a moment when it has just seen every one of them beat
+// (all of them are on a CPU right now - under machine load a descheduled participant would
+// otherwise turn the race into a sequence); then each burns its seeded skew.
+type barrier struct {
+	slots  int32
+	goFlag int32
+	beat   [8]struct {
+		n int64
+		_ [56]byte
+	}
+}
 
 func (b *barrier) wait(delay int) {
-	atomic.AddInt32(&b.arrived, 1)
+	me := atomic.AddInt32(&b.slots, 1) - 1
 	for atomic.LoadInt32(&b.goFlag) == 0 {
+		atomic.AddInt64(&b.beat[me&7].n, 1)
 	}
 	for d := 0; d < delay; d++ {
 		_ = atomic.LoadInt32(&b.goFlag) // a few ns each, no shared writes
@@ -88,7 +98,27 @@ func (b *barrier) wait(delay int) {
 }
 
 func (b *barrier) release(n int) {
-	for atomic.LoadInt32(&b.arrived) < int32(n) {
+	for atomic.LoadInt32(&b.slots) < int32(n) {
+		runtime.Gosched()
+	}
+	var seen [8]int64
+	for try := 0; try < 2000; try++ {
+		for i := 0; i < n && i < 8; i++ {
+			seen[i] = atomic.LoadInt64(&b.beat[i].n)
+		}
+		for k := 0; k < 200; k++ { // well under a microsecond
+			_ = atomic.LoadInt32(&b.goFlag)
+		}
+		all := true
+		for i := 0; i < n && i < 8; i++ {
+			if atomic.LoadInt64(&b.beat[i].n) == seen[i] {
+				all = false
+				break
+			}
+		}
+		if all {
+			break
+		}
 		runtime.Gosched()
 	}
 	atomic.StoreInt32(&b.goFlag, 1)
@@ -1187,7 +1217,7 @@ func raceCtl(rng *rand.Rand, kind string) (plan []act) {
 	}
 	r := act{Act: qa.Act{Op: "race"}}
 	r.Acts, r.RC = []qa.Act{{Op: ctl}}, []int{0}
-	for n := 1 + rng.Intn(3); n > 0; n-- {
+	for n := []int{1, 2, 2, 3, 3, 3}[rng.Intn(6)]; n > 0; n-- { // more producers, more chances to overlap
 		r.Acts, r.RC = append(r.Acts, add()), append(r.RC, 0)
 	}
 	rng.Shuffle(len(r.Acts), func(i, j int) { r.Acts[i], r.Acts[j] = r.Acts[j], r.Acts[i] })
@@ -1303,6 +1333,7 @@ func main() {
 	nrace := flag.Int("race", 0, "race rounds per list-queue type")
 	nprace := flag.Int("prace", 0, "priq race rounds")
 	nbatch := flag.Int("batch", 20, "worlds per lock-step batch")
+	ctlonly := flag.Bool("ctlonly", false, "race rounds: only {close | try-close | try-clear} x adds (used by C12)")
 	npstress := flag.Int("npstress", 0, "additional priq stress runs")
 	flag.Parse()
 	rng := rand.New(rand.NewSource(*seed))
@@ -1382,10 +1413,14 @@ func main() {
 				rcap = 0
 			}
 			rep := rng.Intn(4)
-			if i%2 == 0 {
+			if i%2 == 0 && !*ctlonly {
 				queue(spec{"race", kind, 0, rcap, rep, raceList(rng, kind)})
 			} else {
 				queue(spec{"racectl", kind, 0, rcap, rep, raceCtl(rng, kind)})
+				if kind == "mq" { // three life-ending calls instead of one: proportionally more rounds
+					queue(spec{"racectl", kind, 0, rcap, rep, raceCtl(rng, kind)})
+					queue(spec{"racectl", kind, 0, 0, rep, raceCtl(rng, kind)})
+				}
 			}
 		}
 	}
